@@ -1,0 +1,10 @@
+//go:build !verif
+
+package pool
+
+import "sync"
+
+// ObjPool is the pool type for reusable objects (messages, questions,
+// resources, request contexts). It is sync.Pool, unless the build tag
+// "verif" replaces it with a checking implementation.
+type ObjPool = sync.Pool
